@@ -13,7 +13,7 @@ use neurons::tensor::Tensor;
 pub fn meta(ctx: &Ctx) -> Meta {
     let e = max_epochs(ctx);
     Meta {
-        rule: format!("every validation-loss trajectory in {{rise,fall,equal}}^(E-1) for epoch budgets E in 1..{} x every tolerance T in 1..5, with validation data; every E in 1..{} without; the unmodified learn() is driven through each of them and the commanded pattern is re-derived from the returned vector (only matching runs count). Oracle over what learn() returned: len(train)=n; len(val_loss)=len(val_acc)=n (0 and n=E without validation data); stop(e) := e>T and the last T recorded losses strictly increasing is false for every e<n; if n<E then stop(n). States = (epoch, pattern prefix) pairs visited; transitions = epochs run; non-trivial = trajectories with at least one rise", e, e),
+        rule: format!("every validation-loss trajectory in {{rise,fall,equal}}^(E-1) for epoch budgets E in 1..{} x every tolerance T in 1..5, with validation data (also with print frequencies 1, 2 and beyond the budget on a third of them); every E in 1..{} without; the unmodified learn() is driven through each of them and the commanded pattern is re-derived from the returned vector (only matching runs count). Oracle over what learn() returned: len(train)=n; len(val_loss)=len(val_acc)=n (0 and n=E without validation data); stop(e) := e>T and the last T recorded losses strictly increasing is false for every e<n; if n<E then stop(n). States = (epoch, pattern prefix) pairs visited; transitions = epochs run; non-trivial = trajectories with at least one rise", e, e),
         bound: format!("E <= {}, T <= 5; complete", e),
         exhaustive: true,
         assumptions: vec!["stop rule read as in the statement's anchor: the window of the last T recorded validation losses is strictly increasing (T-1 comparisons) and more than T epochs have run".into()],
@@ -33,6 +33,7 @@ pub fn check(case: &Kv, rep: &mut Report) {
     let epochs = case.usize("epochs");
     let tol = case.usize("tol");
     let with_val = case.bool("val");
+    let print: Option<i32> = case.opt("print").and_then(|p| p.parse().ok());
     let pattern: Vec<char> = case.get("pattern").chars().collect();
     assert_eq!(pattern.len(), epochs.saturating_sub(1).max(0));
     rep.states += epochs as u64;
@@ -73,9 +74,9 @@ pub fn check(case: &Kv, rep: &mut Report) {
     let vt = vec![&tv];
     let res = guard(|| {
         if with_val {
-            lib.learn(&xr, &tr, Some((&vx, &vt, tol as i32)), 1, epochs as i32, None)
+            lib.learn(&xr, &tr, Some((&vx, &vt, tol as i32)), 1, epochs as i32, print)
         } else {
-            lib.learn(&xr, &tr, None, 1, epochs as i32, None)
+            lib.learn(&xr, &tr, None, 1, epochs as i32, print)
         }
     });
     let (train, val, acc) = match res {
@@ -166,6 +167,12 @@ pub fn cases(ctx: &Ctx) -> Vec<Kv> {
                 .collect();
             for tol in 1..=5usize {
                 out.push(Kv::new().put("epochs", epochs).put("tol", tol).put("val", 1).put("pattern", &pat));
+                // the reporting frequency must not influence the contract (output is diverted)
+                for print in [1usize, 2, epochs + 5] {
+                    if (code + tol + print) % 3 == 0 {
+                        out.push(Kv::new().put("epochs", epochs).put("tol", tol).put("val", 1).put("pattern", &pat).put("print", print));
+                    }
+                }
             }
         }
     }
